@@ -302,6 +302,9 @@ def run_ops(case, want_snaps=True, ops=None, built=None):
                 warnings.simplefilter("always")
                 if name == "simulate":
                     p.simulate(**sim_kwargs(op))
+                elif name == "simulate_default":
+                    # every optional argument left at its default value
+                    p.simulate(max_time=int(op.get("max_time", 200)))
                 elif name == "backward":
                     rec["struct_before"] = structure(p)
                     rec["keep"] = (list(p.workflow.task_list),)  # keep ids alive
